@@ -55,7 +55,8 @@
 #endif
 #endif
 #ifdef V_ASAN
-int __lsan_do_recoverable_leak_check(void);
+int    __lsan_do_recoverable_leak_check(void);
+size_t __sanitizer_get_current_allocated_bytes(void);
 #endif
 extern int64_t svt_verif_live_entries(int type) __attribute__((weak));
 
@@ -180,7 +181,7 @@ int __wrap_pthread_mutex_init(pthread_mutex_t *m, const pthread_mutexattr_t *a) 
 #define DISARM() (g_armed = 0)
 
 /* ------------------------------------------------------------ options */
-static int         o_w = 64, o_h = 64, o_lp = 1, o_preset = 8, o_hl = 3, o_threads = 2, o_gdb = 1, o_frames = 1, o_trunk = 1;
+static int         o_w = 64, o_h = 64, o_lp = 1, o_preset = 8, o_hl = 3, o_threads = 2, o_gdb = 1, o_frames = 1, o_trunk = 1, o_lsan_always = 0;
 static long        o_quiesce_ms = 5000, o_hard_s = 300, o_cpu_s = 90;
 static const char *o_ivf;
 static uint8_t *   g_ivf;
@@ -204,6 +205,7 @@ static void parse_opts(int argc, char **argv, int from) {
         OPT("frames", o_frames, atoi(v));
         OPT("gdb", o_gdb, atoi(v));
         OPT("trunk", o_trunk, atoi(v));
+        OPT("lsan_always", o_lsan_always, atoi(v));
         OPT("quiesce_ms", o_quiesce_ms, atol(v));
         OPT("hard_s", o_hard_s, atol(v));
         OPT("cpu_s", o_cpu_s, atol(v));
@@ -249,6 +251,9 @@ static void prog(const char *fmt, ...) {
 static void session(void) {
     g_thr = pthread_self();
     int threads0 = count_threads();
+#ifdef V_ASAN
+    size_t heap0 = __sanitizer_get_current_allocated_bytes(); /* exact: live malloc'ed bytes */
+#endif
 #ifndef FI_DEC
     EbSvtAv1EncConfiguration cfg;
     EbComponentType *        h = NULL;
@@ -358,7 +363,16 @@ teardown:
     for (int p = 0; p < 4; p++) prog("n%d=%ld;", p, g_per_phase[p]);
     for (int k = 0; k < K_N; k++) prog("k%d=%ld;", k, g_per_kind[k]);
 #ifdef V_ASAN
-    prog("lsan=%d;", __lsan_do_recoverable_leak_check());
+    {
+        /* LeakSanitizer costs more than the whole session; it can only find something if more bytes are live now
+         * than before the session, so it is run (for the allocation stacks) only then */
+        size_t heap1 = __sanitizer_get_current_allocated_bytes();
+        prog("heap=%zu/%zu;", heap0, heap1);
+        if (heap1 > heap0 || o_lsan_always)
+            prog("lsan=%d;", __lsan_do_recoverable_leak_check());
+        else
+            prog("lsan=0;");
+    }
 #endif
     prog("done;");
 }
